@@ -209,6 +209,29 @@ c.let('__session__', 'self')
 c.trace("client-authentication-usage-required-when-enabled", t_client_auth_usage_required)
 c.trace("failures-answered-with-the-right-error", t_failures_answered)
 c.trace("oversize-replaced-by-too-large-error", t_sent_is_last_built)
+
+
+def t_sent_is_one_encoding(ev, outcome, exc, path):
+    """C02: what goes out on the socket is the encoding of exactly one response message - the one
+    built last - and nothing before or after it."""
+    from vf.sym import seq_of
+    sends = [e for e in ev if e[0] == 'send' and len(e) > 2]
+    writes = [e for e in ev if e[0] == 'response.write']
+    for s in sends:
+        if not writes:
+            return "bytes are sent although no response was encoded"
+        try:
+            ch = seq_of(s[2]).chunks
+            sent = seq_of(s[2]).to_z3()
+        except Exception:
+            return "what is sent is not a byte string"
+        same = len(ch) == 1 and ch[0][0] == 's' and ch[0][1].get_id() == writes[-1][3].get_id()
+        if not same and not path.is_valid(sent == writes[-1][3]):
+            return "the bytes sent are not exactly the encoding of the last response built (something precedes or follows it)"
+    return True
+
+
+c.trace("exactly-one-message-encoding-is-sent", t_sent_is_one_encoding)
 c.trace("nothing-escapes-after-framing", t_only_framing_raises)
 c.trace("too-large-error-iff-over-the-requested-maximum", t_oversize_iff)
 c.modifies("self._connection.remaining", "self._connection.sent")
